@@ -62,21 +62,18 @@ Qed.
 (* ---------- state invariant ---------- *)
 Definition Inv (st : jls_st) : Prop :=
   0 <= js_maxval st /\ 0 <= js_w st <= 65535 /\ 0 <= js_h st <= 65535 /\ 0 <= js_c st <= 3.
-
 Lemma Inv0 : Inv jls_st0. Proof. unfold Inv, jls_st0; simpl; lia. Qed.
 
-Definition small (a : Z) : Prop := a <= 65536.
+Definition frameless (st : jls_st) : bool := (js_w st =? 0) && (js_h st =? 0).
+Definition frameS (st : jls_st) : Z := js_w st * js_h st * js_c st.
+Lemma frameless_S : forall st, frameless st = true -> frameS st = 0.
+Proof. intros st H. unfold frameless in H. apply andb_true_iff in H. destruct H as [H _]. apply Z.eqb_eq in H. unfold frameS. rewrite H. lia. Qed.
 
 Lemma ctx_alloc_val : jls_ctx_alloc = (Ok tt, [14600]).
 Proof. reflexivity. Qed.
-
 Lemma be16_bound : forall d o, bytes d -> 0 <= be16 d o <= 65535.
 Proof. intros. unfold be16. pose proof (bytes_znth d o H). pose proof (bytes_znth d (o + 1) H). lia. Qed.
 
-Lemma small_14600 : Forall small [14600].
-Proof. repeat constructor. unfold small; lia. Qed.
-
-(* jlsl_init keeps geometry and maxVal *)
 Lemma jlsl_init_spec : forall st t1 t2 t3, 0 <= js_maxval st ->
   exists st', jlsl_init st t1 t2 t3 = (Ok st', [14600]) /\
      js_maxval st' = js_maxval st /\ js_w st' = js_w st /\ js_h st' = js_h st /\ js_c st' = js_c st /\ js_bits st' = js_bits st.
@@ -89,58 +86,60 @@ Proof.
   rewrite ctx_alloc_val. unfold bind at 1. cbn [fst snd app].
   destruct ((t1 =? 0) || (t2 =? 0) || (t3 =? 0)); cbn; eexists; (split; [reflexivity|]); simpl; auto.
 Qed.
-
-(* post-condition of the header functions: state invariant, remaining input *)
-Definition postP (bs : list Z) (x : jls_st * list Z) : Prop :=
-  Inv (fst x) /\ bytes (snd x) /\ (length (snd x) <= length bs)%nat.
-
-Lemma jlsl_init_good : forall g st t1 t2 t3, 0 <= js_maxval st ->
-  good g 65536 (fun st' => js_maxval st' = js_maxval st /\ js_w st' = js_w st /\ js_h st' = js_h st /\ js_c st' = js_c st)
+Lemma jlsl_init_good : forall st t1 t2 t3, 0 <= js_maxval st ->
+  good true 65536 (fun st' => js_maxval st' = js_maxval st /\ js_w st' = js_w st /\ js_h st' = js_h st /\ js_c st' = js_c st)
        (jlsl_init st t1 t2 t3).
 Proof.
-  intros g st t1 t2 t3 H. destruct (jlsl_init_spec st t1 t2 t3 H) as (st' & E & A1 & A2 & A3 & A4 & A5).
+  intros st t1 t2 t3 H. destruct (jlsl_init_spec st t1 t2 t3 H) as (st' & E & A1 & A2 & A3 & A4 & A5).
   rewrite E. unfold good; simpl. split; [congruence|]. split; [congruence|]. split; [repeat constructor; lia|].
   intros a Ha; inversion Ha; subst; auto.
 Qed.
 
-(* parseSOF55 (lossless decoder) *)
-Lemma jlsl_sof55_good : forall g st bs, bytes bs -> good g 65536 (postP bs) (jlsl_parse_sof55 g st bs).
+(* post-conditions: invariant, remaining input = the rest after this segment *)
+Definition postR (r : list Z) (x : jls_st * list Z) : Prop :=
+  Inv (fst x) /\ bytes (snd x) /\ (length (snd x) <= length r)%nat /\ snd x = seg_rest r.
+Definition sameFrame (st st' : jls_st) : Prop := js_w st' = js_w st /\ js_h st' = js_h st /\ js_c st' = js_c st.
+
+Ltac rseg Hb := eapply good_bind; [eapply good_weaken; [apply good_read_segment'; exact Hb|lia|intros a Ha; exact Ha]|].
+
+(* parseSOF55 (lossless decoder): accepted only in a frameless state; the new frame is the one this segment declares *)
+Lemma jlsl_sof55_good : forall st bs, bytes bs ->
+  good true 65536 (fun x => postR bs x /\ frameless st = true /\ frameless (fst x) = false /\ frameS (fst x) = sof_S (seg_data bs))
+       (jlsl_parse_sof55 st bs).
 Proof.
-  intros g st bs Hb. unfold jlsl_parse_sof55.
-  eapply good_bind.
-  { eapply good_weaken; [apply good_read_segment; exact Hb|lia|intros a Ha; exact Ha]. }
-  intros [d rest] (Hd & Hrest & Hdl & Hlen). cbn [fst snd] in *.
+  intros st bs Hb. unfold jlsl_parse_sof55. rseg Hb.
+  intros [d rest] (Hd & Hrest & Hdl & Hlen & Ed & Er). cbn [fst snd] in *.
   set (bits := znth d 0 0). set (h := be16 d 1). set (w := be16 d 3). set (c := znth d 5 0).
   assert (Hbits : 0 <= bits < 256) by (apply bytes_znth; auto).
   assert (Hh : 0 <= h <= 65535) by (apply be16_bound; auto).
   assert (Hw : 0 <= w <= 65535) by (apply be16_bound; auto).
-  destruct (zlen d <? 6); [apply good_err|].
+  destruct (zlen d <? 6) eqn:E6; [apply good_err|].
+  destruct (negb (js_w st =? 0) || negb (js_h st =? 0)) eqn:Efr; [apply good_err|].
   destruct ((w <=? 0) || (h <=? 0)) eqn:Ewh; [apply good_err|].
   destruct (negb ((c =? 1) || (c =? 3))) eqn:Ec; [apply good_err|].
   assert (Hc : 0 <= c <= 3).
   { apply negb_false_iff in Ec. apply orb_true_iff in Ec. destruct Ec as [E|E]; apply Z.eqb_eq in E; lia. }
-  destruct (Z.leb_spec 64 bits) as [Hge|Hlt].
-  - (* precision >= 64: rejected by the proposed check, a panic in the code as it stands *)
-    destruct g; cbn [andb]; [apply good_err|].
-    rewrite coding_params_panics by lia. unfold lift. unfold bind; simpl.
-    unfold good; simpl. split; [congruence|]. split; [congruence|]. split; [constructor|]. intros; discriminate.
-  - rewrite andb_false_r.
-    assert (Hmv : 0 <= i64 (shl1 bits - 1)) by (apply shl1_nonneg; lia).
-    destruct (coding_params_ok (i64 (shl1 bits - 1)) 0 64 Hmv) as [p Hp]. rewrite Hp.
-    eapply good_bind; [apply good_lift_ok with (a := p) (post := fun a => a = p); [reflexivity|reflexivity]|]. intros p' ->.
-    eapply good_bind; [apply jlsl_init_good; simpl; exact Hmv|].
-    intros st2 (A1 & A2 & A3 & A4). simpl in A1, A2, A3, A4.
-    apply good_ret. unfold postP, Inv; simpl. rewrite A1, A2, A3, A4.
-    apply orb_false_iff in Ewh. destruct Ewh as [E1 E2]. apply Z.leb_gt in E1. apply Z.leb_gt in E2.
-    repeat split; auto; lia.
+  destruct ((bits <? 2) || (16 <? bits)) eqn:Eb; [apply good_err|].
+  apply orb_false_iff in Eb. destruct Eb as [Eb1 Eb2]. apply Z.ltb_ge in Eb1. apply Z.ltb_ge in Eb2.
+  assert (Hmv : 0 <= i64 (shl1 bits - 1)) by (apply shl1_nonneg; lia).
+  destruct (coding_params_ok (i64 (shl1 bits - 1)) 0 64 Hmv) as [p Hp]. rewrite Hp.
+  eapply good_bind; [apply good_lift_ok with (a := p) (post := fun a => a = p); [reflexivity|reflexivity]|]. intros p' ->.
+  eapply good_bind; [apply jlsl_init_good; simpl; exact Hmv|].
+  intros st2 (A1 & A2 & A3 & A4). simpl in A1, A2, A3, A4.
+  apply orb_false_iff in Ewh. destruct Ewh as [E1 E2]. apply Z.leb_gt in E1. apply Z.leb_gt in E2.
+  apply good_ret. unfold postR, Inv, frameless, frameS; cbn [fst snd]. rewrite A1, A2, A3, A4.
+  split; [repeat split; auto; lia|]. split.
+  { apply orb_false_iff in Efr. destruct Efr as [F1 F2]. apply negb_false_iff in F1. apply negb_false_iff in F2. rewrite F1, F2. reflexivity. }
+  split.
+  { destruct (Z.eqb_spec w 0); [lia|]. reflexivity. }
+  rewrite <- Ed. unfold sof_S. rewrite E6. reflexivity.
 Qed.
 
-Lemma jlsl_lse_good : forall g st bs, bytes bs -> Inv st -> good g 65536 (postP bs) (jlsl_parse_lse st bs).
+Lemma jlsl_lse_good : forall st bs, bytes bs -> Inv st ->
+  good true 65536 (fun x => postR bs x /\ sameFrame st (fst x)) (jlsl_parse_lse st bs).
 Proof.
-  intros g st bs Hb (I1 & I2 & I3 & I4). unfold jlsl_parse_lse.
-  eapply good_bind.
-  { eapply good_weaken; [apply good_read_segment; exact Hb|lia|intros a Ha; exact Ha]. }
-  intros [d rest] (Hd & Hrest & Hdl & Hlen). cbn [fst snd] in *.
+  intros st bs Hb (I1 & I2 & I3 & I4). unfold jlsl_parse_lse. rseg Hb.
+  intros [d rest] (Hd & Hrest & Hdl & Hlen & Ed & Er). cbn [fst snd] in *.
   destruct (zlen d <? 1); [apply good_err|].
   destruct (znth d 0 0 =? 1).
   - destruct (zlen d <? 11); [apply good_err|].
@@ -148,31 +147,28 @@ Proof.
     eapply good_bind.
     { apply jlsl_init_good. simpl. destruct (Z.leb_spec (be16 d 1) 0); lia. }
     intros st2 (A1 & A2 & A3 & A4). simpl in A1, A2, A3, A4.
-    apply good_ret. unfold postP, Inv; simpl. rewrite A1, A2, A3, A4.
+    apply good_ret. unfold postR, Inv, sameFrame; cbn [fst snd]. rewrite A1, A2, A3, A4.
     repeat split; auto; try lia. destruct (Z.leb_spec (be16 d 1) 0); lia.
-  - apply good_ret. unfold postP, Inv; simpl. repeat split; auto; lia.
+  - apply good_ret. unfold postR, Inv, sameFrame; cbn [fst snd]. repeat split; auto; lia.
 Qed.
 
-Lemma jlsl_sos_good : forall g st bs, bytes bs -> Inv st -> good g 65536 (postP bs) (jlsl_parse_sos st bs).
+Lemma jlsl_sos_good : forall st bs, bytes bs -> Inv st ->
+  good true 65536 (fun x => postR bs x /\ sameFrame st (fst x) /\ js_bits (fst x) = js_bits st) (jlsl_parse_sos st bs).
 Proof.
-  intros g st bs Hb (I1 & I2 & I3 & I4). unfold jlsl_parse_sos.
-  eapply good_bind.
-  { eapply good_weaken; [apply good_read_segment; exact Hb|lia|intros a Ha; exact Ha]. }
-  intros [d rest] (Hd & Hrest & Hdl & Hlen). cbn [fst snd] in *.
+  intros st bs Hb (I1 & I2 & I3 & I4). unfold jlsl_parse_sos. rseg Hb.
+  intros [d rest] (Hd & Hrest & Hdl & Hlen & Ed & Er). cbn [fst snd] in *.
   destruct (Z.ltb_spec (zlen d) 4); [apply good_err|].
   destruct (negb (znth d 0 0 =? js_c st)); [apply good_err|].
   eapply good_bind; [apply good_idx; lia|]. intros ilv _.
   destruct ((js_c st =? 1) && negb (ilv =? 0)); [apply good_err|].
   destruct ((1 <? js_c st) && negb (ilv =? 2)); [apply good_err|].
-  apply good_ret. unfold postP, Inv; simpl. repeat split; auto; lia.
+  apply good_ret. unfold postR, Inv, sameFrame; simpl. repeat split; auto; lia.
 Qed.
 
-Definition S_hdr (x : jls_hdr) : Z := let '(w, h, c, _, _) := x in w * h * c.
-
-Lemma jls_scan_allocs_good : forall g st rest, Inv st ->
-  good g (8 * (js_w st * js_h st * js_c st) + 2 * zlen rest + 65536) (fun _ => True) (jls_scan_allocs st rest).
+Lemma jls_scan_allocs_good : forall st rest, 0 <= js_w st <= 65535 -> 0 <= js_h st <= 65535 -> 0 <= js_c st <= 3 ->
+  good true (8 * (js_w st * js_h st * js_c st) + 2 * zlen rest + 65536) (fun _ => True) (jls_scan_allocs st rest).
 Proof.
-  intros g st rest (I1 & I2 & I3 & I4). unfold jls_scan_allocs.
+  intros st rest I2 I3 I4. unfold jls_scan_allocs.
   pose proof (zlen_nonneg rest).
   assert (Hwh : 0 <= js_w st * js_h st <= 65535 * 65535)
     by (split; [apply Z.mul_nonneg_nonneg; lia | apply Z.mul_le_mono_nonneg; lia]).
@@ -183,201 +179,157 @@ Proof.
   destruct (js_bits st <=? 8); (apply good_alloc; [lia|rewrite maxAlloc_val; lia|lia|exact I]).
 Qed.
 
+Lemma frame_S_nonneg : forall m fuel bs, bytes bs -> 0 <= frame_S m fuel bs.
+Proof.
+  intros m fuel. induction fuel as [|k IH]; intros bs Hb; cbn [frame_S]; [lia|].
+  destruct (read_marker bs) as [[mk r]| | |] eqn:EM; try lia.
+  destruct (read_marker_ok _ _ _ EM) as [_ Hbb]. destruct (Hbb Hb) as [Hr _].
+  destruct (mk =? m).
+  { apply sof_S_nonneg. unfold seg_data. destruct r as [|a [|b r']]; try constructor.
+    inversion Hr as [|? ? ? Hr']; subst. inversion Hr'; subst. apply bytes_firstn; auto. }
+  destruct ((mk =? 218) || (mk =? 217)); [lia|].
+  destruct (has_length mk); [|apply IH; auto].
+  apply IH. unfold seg_rest. destruct r as [|a [|b r']]; try constructor.
+  inversion Hr as [|? ? ? Hr']; subst. inversion Hr'; subst. apply bytes_skipn; auto.
+Qed.
+
 (* ---------- the marker loop ---------- *)
-Definition loopP (g : bool) (bs : list Z) (m : M jls_hdr) : Prop :=
-  (g = true -> fst m <> Panic) /\ fst m <> OutOfFuel /\ bounded S_hdr 8 (2 * zlen bs + 65536) m.
-
-Lemma loopP_err : forall g bs, loopP g bs err.
-Proof. intros. unfold loopP, bounded; simpl. split; [congruence|]. split; [congruence|constructor]. Qed.
-
-Lemma loopP_mono : forall g bs bs' m, zlen bs' <= zlen bs -> loopP g bs' m -> loopP g bs m.
+Lemma jlsl_loop_good : forall fuel st bs Sx, bytes bs -> Inv st -> (length bs < fuel)%nat -> 0 <= Sx ->
+  (frameless st = true -> frame_S 247 fuel bs <= Sx) -> (frameless st = false -> frameS st <= Sx) ->
+  aloopP Sx 8 bs (jlsl_loop fuel st bs).
 Proof.
-  intros g bs bs' m H (A & B & C). split; [exact A|]. split; [exact B|].
-  eapply bounded_weaken; [|exact C]. lia.
-Qed.
-
-(* a header function (small requests) followed by a continuation *)
-Lemma loopP_bind : forall {A} g bs (pa : A -> Prop) (pf : M A) (f : A -> M jls_hdr),
-  good g 65536 pa pf -> (forall a, pa a -> loopP g bs (f a)) -> loopP g bs (bind pf f).
-Proof.
-  intros A g bs pa pf f (G1 & G2 & G3 & G4) Hf.
-  assert (Hsm : Forall (fun a => a <= 2 * zlen bs + 65536) (snd pf)).
-  { eapply Forall_impl; [|exact G3]. cbv beta; intros. pose proof (zlen_nonneg bs). lia. }
-  split; [|split].
-  - intros Hg. destruct pf as [[a| | |] l]; unfold bind; cbn [fst snd] in *; try congruence;
-      try (exfalso; apply (G1 Hg); reflexivity).
-    apply (Hf a (G4 a eq_refl)); auto.
-  - destruct pf as [[a| | |] l]; unfold bind; cbn [fst snd] in *; try congruence;
-      try (exfalso; apply G2; reflexivity).
-    apply (Hf a (G4 a eq_refl)).
-  - apply bounded_bind_small; [lia|exact Hsm|]. intros a l E. rewrite E in G4. apply (Hf a (G4 a eq_refl)).
-Qed.
-
-Lemma jlsl_loop_good : forall g fuel st bs, bytes bs -> Inv st -> (length bs < fuel)%nat ->
-  loopP g bs (jlsl_loop g fuel st bs).
-Proof.
-  intros g fuel. induction fuel as [|k IH]; intros st bs Hb HI Hf; [lia|].
-  cbn [jlsl_loop].
-  destruct (read_marker bs) as [[m r]| | |] eqn:EM; try apply loopP_err.
+  induction fuel as [|k IH]; intros st bs Sx Hb HI Hf HS H1 H2; [lia|].
+  assert (HfS : frameS st <= Sx).
+  { destruct (frameless st) eqn:E; [rewrite (frameless_S st E); exact HS|apply H2; reflexivity]. }
+  cbn [jlsl_loop]. cbn [frame_S] in H1.
+  destruct (read_marker bs) as [[m r]| | |] eqn:EM; try apply aloopP_err.
   destruct (read_marker_ok _ _ _ EM) as [Hl Hbb]. destruct (Hbb Hb) as [Hr Hm].
   assert (Hzl : zlen r <= zlen bs) by (unfold zlen; lia).
-  assert (Rec : forall x : jls_st * list Z, postP r x -> loopP g bs (jlsl_loop g k (fst x) (snd x))).
-  { intros [st' rest] (P1 & P2 & P3). cbn [fst snd] in *.
-    apply loopP_mono with (bs' := rest); [unfold zlen; lia|]. apply IH; auto. lia. }
-  destruct (m =? 247).
-  { eapply loopP_bind; [apply jlsl_sof55_good; exact Hr|exact Rec]. }
-  destruct (m =? 248).
-  { eapply loopP_bind; [apply jlsl_lse_good; auto|exact Rec]. }
-  destruct (m =? 218).
-  { eapply loopP_bind; [apply jlsl_sos_good; auto|].
-    intros [st' rest] (P1 & P2 & P3). cbn [fst snd] in *.
-    pose proof (jls_scan_allocs_good g st' rest P1) as (S1 & S2 & S3 & _).
-    destruct P1 as (Q1 & Q2 & Q3 & Q4).
-    destruct (jls_scan_allocs st' rest) as [[[]| | |] la] eqn:ES; cbn [fst snd] in S1, S2, S3;
-      unfold bind, ret; cbn [fst snd]; unfold loopP; cbn [fst snd].
-    - split; [congruence|]. split; [congruence|]. unfold bounded, Sres, S_hdr; cbn [fst snd]. rewrite app_nil_r.
-      eapply Forall_impl; [|exact S3]. cbv beta. intros a Ha.
-      assert (zlen rest <= zlen bs) by (unfold zlen; lia). lia.
-    - exfalso.
-      (* jls_scan_allocs never returns Err *)
-      unfold jls_scan_allocs, note_alloc, alloc, bind in ES. cbn [fst snd] in ES.
-      destruct ((js_w st' * js_h st' * js_c st' <? 0) || (maxAlloc <? js_w st' * js_h st' * js_c st' * 8)); cbn [fst snd] in ES; try discriminate.
-      destruct ((js_w st' * js_h st' * js_c st' <? 0) || (maxAlloc <? js_w st' * js_h st' * js_c st' * (if js_bits st' <=? 8 then 1 else 2))); cbn [fst snd] in ES; discriminate.
-    - exfalso. (* no panic: jls_scan_allocs_good with g := true *)
-      pose proof (jls_scan_allocs_good true st' rest (conj Q1 (conj Q2 (conj Q3 Q4)))) as (T1 & _).
-      rewrite ES in T1. cbn [fst] in T1. apply T1; reflexivity.
-    - exfalso. apply S2; reflexivity. }
-  destruct (m =? 217); [apply loopP_err|].
-  destruct (has_length m).
-  { eapply loopP_bind; [apply good_weaken with (B := 65533) (p := fun x => bytes (fst x) /\ bytes (snd x) /\ zlen (fst x) <= 65533 /\ (length (snd x) <= length r)%nat) (p' := fun x => bytes (snd x) /\ (length (snd x) <= length r)%nat);
-      [apply good_read_segment; exact Hr|lia|tauto]|].
-    intros [d rest] (P2 & P3). cbn [fst snd] in *.
-    apply loopP_mono with (bs' := rest); [unfold zlen; lia|]. apply IH; auto. lia. }
-  apply loopP_mono with (bs' := r); [exact Hzl|]. apply IH; auto. lia.
+  pose proof (zlen_nonneg bs) as Hz0.
+  destruct (m =? 247) eqn:E247.
+  { eapply aloopP_bind; [apply jlsl_sof55_good; exact Hr|nia|].
+    intros [st' rest] ((P1 & P2 & P3 & P4) & F0 & F1 & F2). cbn [fst snd] in *.
+    eapply aloopP_mono with (S' := Sx) (bs' := rest); [lia|lia|unfold zlen; lia|].
+    apply IH; auto; [lia| |].
+    - intros C. rewrite F1 in C. discriminate.
+    - intros _. rewrite F2. apply H1. exact F0. }
+  destruct (m =? 248) eqn:E248.
+  { eapply aloopP_bind; [apply jlsl_lse_good; auto|nia|].
+    intros [st' rest] ((P1 & P2 & P3 & P4) & (A2 & A3 & A4)). cbn [fst snd] in *.
+    assert (Hfl : frameless st' = frameless st) by (unfold frameless; rewrite A2, A3; reflexivity).
+    eapply aloopP_mono with (S' := Sx) (bs' := rest); [lia|lia|unfold zlen; lia|].
+    apply IH; auto; [lia| |].
+    - rewrite Hfl. intros C. specialize (H1 C). rewrite P4.
+      assert (E1 : (248 =? 218) || (248 =? 217) = false) by reflexivity.
+      apply Z.eqb_eq in E248. subst m. cbn in H1. exact H1.
+    - rewrite Hfl. intros C. unfold frameS. rewrite A2, A3, A4. apply H2; exact C. }
+  destruct (m =? 218) eqn:E218.
+  { eapply aloopP_bind; [apply jlsl_sos_good; auto|nia|].
+    intros [st' rest] ((P1 & P2 & P3 & P4) & (A2 & A3 & A4) & A5). cbn [fst snd] in *.
+    destruct HI as (I1 & I2 & I3 & I4).
+    pose proof (jls_scan_allocs_good st' rest ltac:(lia) ltac:(lia) ltac:(lia)) as G.
+    eapply aloopP_bind; [exact G| |intros _ _; apply aloopP_ret].
+    unfold frameS in HfS. rewrite A2, A3, A4. assert (zlen rest <= zlen bs) by (unfold zlen; lia). lia. }
+  destruct (m =? 217) eqn:E217; [apply aloopP_err|].
+  cbn [orb] in H1.
+  destruct (has_length m) eqn:EL.
+  { eapply aloopP_bind; [eapply good_weaken; [apply good_read_segment'; exact Hr|apply Z.le_refl|intros a Ha; exact Ha]|nia|].
+    intros [d rest] (P1 & P2 & P3 & P4 & P5 & P6). cbn [fst snd] in *.
+    eapply aloopP_mono with (S' := Sx) (bs' := rest); [lia|lia|unfold zlen; lia|].
+    apply IH; auto; [lia|]. intros C. rewrite P6. apply H1. exact C. }
+  eapply aloopP_mono with (S' := Sx) (bs' := r); [lia|lia|exact Hzl|].
+  apply IH; auto. lia.
 Qed.
 
-(* ---------- theorems for jlsl_decode ---------- *)
-Lemma jlsl_decode_loopP : forall g bs, bytes bs -> loopP g bs (jlsl_decode g (fuel_of bs) bs).
+Lemma jlsl_decode_aloopP : forall bs, bytes bs -> aloopP (frame_declared 247 bs) 8 bs (jlsl_decode (fuel_of bs) bs).
 Proof.
-  intros g bs Hb. unfold jlsl_decode.
-  destruct (read_marker bs) as [[m r]| | |] eqn:EM; try apply loopP_err.
+  intros bs Hb. unfold jlsl_decode, frame_declared.
+  destruct (read_marker bs) as [[m r]| | |] eqn:EM; try apply aloopP_err.
   destruct (read_marker_ok _ _ _ EM) as [Hl Hbb]. destruct (Hbb Hb) as [Hr Hm].
-  destruct (m =? 216); [|apply loopP_err].
-  apply loopP_mono with (bs' := r); [unfold zlen; lia|].
-  apply jlsl_loop_good; auto; [apply Inv0|unfold fuel_of; lia].
+  destruct (m =? 216); [|apply aloopP_err].
+  eapply aloopP_mono with (S' := frame_S 247 (fuel_of bs) r) (bs' := r); [lia|lia|unfold zlen; lia|].
+  apply jlsl_loop_good; auto.
+  - apply Inv0.
+  - unfold fuel_of; lia.
+  - apply frame_S_nonneg; auto.
+  - intros _. lia.
+  - intros C. discriminate.
 Qed.
 
-(* With the proposed check (precision >= 64 rejected) the lossless JPEG-LS header path never panics *)
-Theorem jlsl_decode_no_panic : forall bs, bytes bs -> fst (jlsl_decode true (fuel_of bs) bs) <> Panic.
-Proof. intros bs Hb. apply (jlsl_decode_loopP true bs Hb). reflexivity. Qed.
-
-(* As the code stands it does: SOI, SOF55 with precision byte 64, 1x1, one component *)
-Definition jls_panic_witness : list Z := [255; 216; 255; 247; 0; 8; 64; 0; 1; 0; 1; 1].
-Theorem jlsl_decode_panics_refuted : exists bs, bytes bs /\ fst (jlsl_decode false (fuel_of bs) bs) = Panic.
-Proof.
-  exists jls_panic_witness. split; [|vm_compute; reflexivity].
-  unfold bytes, jls_panic_witness. repeat constructor; lia.
-Qed.
-
-Theorem jlsl_decode_fuel : forall g bs, bytes bs -> fst (jlsl_decode g (fuel_of bs) bs) <> OutOfFuel.
-Proof. intros g bs Hb. apply (jlsl_decode_loopP g bs Hb). Qed.
-
-(* every allocation request is bounded by 8*S + 2*len + 65536 where S = w*h*c of the header
-   the decoder hands to the entropy decoder (0 if it does not get that far) *)
-Theorem jlsl_decode_alloc : forall g bs, bytes bs ->
-  Forall (fun a => a <= 8 * Sres S_hdr (fst (jlsl_decode g (fuel_of bs) bs)) + 2 * zlen bs + 65536)
-         (snd (jlsl_decode g (fuel_of bs) bs)).
-Proof.
-  intros g bs Hb. destruct (jlsl_decode_loopP g bs Hb) as (_ & _ & H).
-  unfold bounded in H. eapply Forall_impl; [|exact H]. simpl; intros; lia.
-Qed.
-
-(* relative to the FIRST frame header of the stream (the C09 reading) the bound fails: a second
-   SOF55 is accepted and replaces the first *)
-Definition jls_two_sof_witness : list Z :=
-  [255; 216; 255; 247; 0; 8; 8; 0; 1; 0; 1; 1;  255; 247; 0; 8; 8; 255; 255; 255; 255; 1;
-   255; 218; 0; 8; 1; 1; 0; 0; 0; 0].
-Theorem jlsl_alloc_first_header_refuted : exists bs, bytes bs /\ declared_S bs = 1 /\
-  exists a, In a (snd (jlsl_decode true (fuel_of bs) bs)) /\ a > 8 * declared_S bs + 2 * zlen bs + 65536 /\ a = 8 * (65535 * 65535).
-Proof.
-  exists jls_two_sof_witness. split; [unfold bytes, jls_two_sof_witness; repeat constructor; lia|].
-  split; [vm_compute; reflexivity|].
-  exists (8 * (65535 * 65535)). split; [vm_compute; tauto|]. split; [vm_compute; reflexivity|reflexivity].
-Qed.
+(* For every byte string: the lossless JPEG-LS header path does not panic (F36: the precision byte is
+   validated; historical witness ff d8 ff f7 00 08 40 00 01 00 01 01 divided by zero) *)
+Theorem jlsl_decode_no_panic : forall bs, bytes bs -> fst (jlsl_decode (fuel_of bs) bs) <> Panic.
+Proof. intros bs Hb. apply (jlsl_decode_aloopP bs Hb). Qed.
+Theorem jlsl_decode_fuel : forall bs, bytes bs -> fst (jlsl_decode (fuel_of bs) bs) <> OutOfFuel.
+Proof. intros bs Hb. apply (jlsl_decode_aloopP bs Hb). Qed.
+(* every allocation request is bounded by the size the (unique) SOF55 of the stream declares
+   (F44: a second SOF55 is rejected; historical witness: SOF55 1x1 followed by SOF55 65535x65535) *)
+Theorem jlsl_decode_alloc : forall bs, bytes bs ->
+  Forall (fun a => a <= 8 * frame_declared 247 bs + 2 * zlen bs + 65536) (snd (jlsl_decode (fuel_of bs) bs)).
+Proof. intros bs Hb. apply (jlsl_decode_aloopP bs Hb). Qed.
 
 (* ================= near-lossless decoder ================= *)
-
-(* invariant of the near-lossless decoder: maxVal >= 0 is only guaranteed with the proposed check *)
-Definition InvN (g : bool) (st : jls_st) : Prop :=
-  (g = true -> 0 <= js_maxval st) /\ 0 <= js_w st <= 65535 /\ 0 <= js_h st <= 65535 /\ 0 <= js_c st <= 3.
-Definition postN (g : bool) (bs : list Z) (x : jls_st * list Z) : Prop :=
-  InvN g (fst x) /\ bytes (snd x) /\ (length (snd x) <= length bs)%nat.
-Lemma InvN0 : forall g, InvN g jls_st0. Proof. intros; unfold InvN, jls_st0; simpl; repeat split; lia. Qed.
-Lemma InvN_Inv : forall st, InvN true st -> Inv st.
-Proof. intros st (A & B & C & D). unfold Inv. pose proof (A eq_refl). repeat split; lia. Qed.
-
-Lemma jlsn_sof55_good : forall g st bs, bytes bs -> good g 65536 (postN g bs) (jlsn_parse_sof55 g st bs).
+Lemma jlsn_sof55_good : forall st bs, bytes bs ->
+  good true 65536 (fun x => postR bs x /\ frameless st = true /\ frameless (fst x) = false /\ frameS (fst x) = sof_S (seg_data bs))
+       (jlsn_parse_sof55 st bs).
 Proof.
-  intros g st bs Hb. unfold jlsn_parse_sof55.
-  eapply good_bind.
-  { eapply good_weaken; [apply good_read_segment; exact Hb|lia|intros a Ha; exact Ha]. }
-  intros [d rest] (Hd & Hrest & Hdl & Hlen). cbn [fst snd] in *.
+  intros st bs Hb. unfold jlsn_parse_sof55. rseg Hb.
+  intros [d rest] (Hd & Hrest & Hdl & Hlen & Ed & Er). cbn [fst snd] in *.
   set (bits := znth d 0 0). set (h := be16 d 1). set (w := be16 d 3). set (c := znth d 5 0).
   assert (Hbits : 0 <= bits < 256) by (apply bytes_znth; auto).
   assert (Hh : 0 <= h <= 65535) by (apply be16_bound; auto).
   assert (Hw : 0 <= w <= 65535) by (apply be16_bound; auto).
-  destruct (zlen d <? 6); [apply good_err|].
+  destruct (zlen d <? 6) eqn:E6; [apply good_err|].
+  destruct (negb (js_w st =? 0) || negb (js_h st =? 0)) eqn:Efr; [apply good_err|].
   destruct ((w <=? 0) || (h <=? 0)) eqn:Ewh; [apply good_err|].
   destruct (negb ((c =? 1) || (c =? 3))) eqn:Ec; [apply good_err|].
   assert (Hc : 0 <= c <= 3).
   { apply negb_false_iff in Ec. apply orb_true_iff in Ec. destruct Ec as [E|E]; apply Z.eqb_eq in E; lia. }
-  destruct (g && (64 <=? bits)) eqn:Eg; [apply good_err|].
-  apply good_ret. unfold postN, InvN; simpl. repeat split; auto; try lia.
-  intros ->. cbn [andb] in Eg. apply Z.leb_gt in Eg. apply shl1_nonneg; lia.
+  destruct ((bits <? 2) || (16 <? bits)) eqn:Eb; [apply good_err|].
+  apply orb_false_iff in Eb. destruct Eb as [Eb1 Eb2]. apply Z.ltb_ge in Eb1. apply Z.ltb_ge in Eb2.
+  assert (Hmv : 0 <= i64 (shl1 bits - 1)) by (apply shl1_nonneg; lia).
+  apply orb_false_iff in Ewh. destruct Ewh as [E1 E2]. apply Z.leb_gt in E1. apply Z.leb_gt in E2.
+  apply good_ret. unfold postR, Inv, frameless, frameS; cbn [fst snd js_w js_h js_c js_maxval].
+  split; [repeat split; auto; lia|]. split.
+  { apply orb_false_iff in Efr. destruct Efr as [F1 F2]. apply negb_false_iff in F1. apply negb_false_iff in F2. rewrite F1, F2. reflexivity. }
+  split.
+  { destruct (Z.eqb_spec w 0); [lia|]. reflexivity. }
+  rewrite <- Ed. unfold sof_S. rewrite E6. reflexivity.
 Qed.
 
-Lemma jlsn_lse_good : forall g st bs, bytes bs -> InvN g st -> good g 65536 (postN g bs) (jlsn_parse_lse st bs).
+Lemma jlsn_lse_good : forall st bs, bytes bs -> Inv st ->
+  good true 65536 (fun x => postR bs x /\ sameFrame st (fst x)) (jlsn_parse_lse st bs).
 Proof.
-  intros g st bs Hb (I1 & I2 & I3 & I4). unfold jlsn_parse_lse.
-  eapply good_bind.
-  { eapply good_weaken; [apply good_read_segment; exact Hb|lia|intros a Ha; exact Ha]. }
-  intros [d rest] (Hd & Hrest & Hdl & Hlen). cbn [fst snd] in *.
+  intros st bs Hb (I1 & I2 & I3 & I4). unfold jlsn_parse_lse. rseg Hb.
+  intros [d rest] (Hd & Hrest & Hdl & Hlen & Ed & Er). cbn [fst snd] in *.
   destruct (zlen d <? 1); [apply good_err|].
+  pose proof (be16_bound d 1 Hd) as Hmv.
   destruct ((znth d 0 0 =? 1) && (11 <=? zlen d)).
-  - apply good_ret. unfold postN, InvN; simpl. repeat split; auto; try lia.
-    intros Hg. destruct (Z.ltb_spec 0 (be16 d 1)); [lia|auto].
-  - apply good_ret. unfold postN, InvN; simpl. repeat split; auto; lia.
+  - apply good_ret. unfold postR, Inv, sameFrame; cbn [fst snd js_w js_h js_c js_maxval]. repeat split; auto; try lia.
+    destruct (Z.ltb_spec 0 (be16 d 1)); lia.
+  - apply good_ret. unfold postR, Inv, sameFrame; cbn [fst snd]. repeat split; auto; lia.
 Qed.
 
-Lemma jlsn_apply_good : forall g st, InvN g st ->
-  good g 65536 (fun st' => InvN g st' /\ js_w st' = js_w st /\ js_h st' = js_h st /\ js_c st' = js_c st) (jlsn_apply st).
+Lemma jlsn_apply_good : forall st, Inv st ->
+  good true 65536 (fun st' => Inv st' /\ sameFrame st st' /\ js_bits st' = js_bits st) (jlsn_apply st).
 Proof.
-  intros g st (I1 & I2 & I3 & I4). unfold jlsn_apply.
+  intros st (I1 & I2 & I3 & I4). unfold jlsn_apply.
   set (reset := if 0 <? js_reset st then js_reset st else 64).
-  eapply good_bind.
-  { apply good_lift_any with (post := fun _ => True).
-    - apply coding_params_nf.
-    - intros Hg. destruct (coding_params_ok (js_maxval st) (js_near st) reset (I1 Hg)) as [p ->]. discriminate.
-    - auto. }
-  intros p _.
-  eapply good_bind.
-  { apply good_lift_any with (post := fun _ => True).
-    - apply coding_params_nf.
-    - intros Hg. destruct (coding_params_ok (js_maxval st) (js_near st) (jp_reset p) (I1 Hg)) as [p2 ->]. discriminate.
-    - auto. }
-  intros p2 _.
+  destruct (coding_params_ok (js_maxval st) (js_near st) reset I1) as [p Hp]. rewrite Hp.
+  eapply good_bind; [apply good_lift_ok with (a := p) (post := fun a => a = p); reflexivity|]. intros p' ->.
+  destruct (coding_params_ok (js_maxval st) (js_near st) (jp_reset p) I1) as [p2 Hp2]. rewrite Hp2.
+  eapply good_bind; [apply good_lift_ok with (a := p2) (post := fun a => a = p2); reflexivity|]. intros p2' ->.
   rewrite ctx_alloc_val.
   eapply good_bind with (pa := fun _ => True).
   { unfold good; cbn [fst snd]. split; [discriminate|]. split; [discriminate|]. split; [repeat constructor; lia|auto]. }
-  intros _ _. apply good_ret. unfold InvN; simpl. repeat split; auto; lia.
+  intros _ _. apply good_ret. unfold Inv, sameFrame; cbn [js_w js_h js_c js_maxval js_bits]. repeat split; auto; lia.
 Qed.
 
-Lemma jlsn_sos_good : forall g st bs, bytes bs -> InvN g st -> good g 65536 (postN g bs) (jlsn_parse_sos st bs).
+Lemma jlsn_sos_good : forall st bs, bytes bs -> Inv st ->
+  good true 65536 (fun x => postR bs x /\ sameFrame st (fst x) /\ js_bits (fst x) = js_bits st) (jlsn_parse_sos st bs).
 Proof.
-  intros g st bs Hb (I1 & I2 & I3 & I4). unfold jlsn_parse_sos.
-  eapply good_bind.
-  { eapply good_weaken; [apply good_read_segment; exact Hb|lia|intros a Ha; exact Ha]. }
-  intros [d rest] (Hd & Hrest & Hdl & Hlen). cbn [fst snd] in *.
+  intros st bs Hb (I1 & I2 & I3 & I4). unfold jlsn_parse_sos. rseg Hb.
+  intros [d rest] (Hd & Hrest & Hdl & Hlen & Ed & Er). cbn [fst snd] in *.
   destruct (Z.ltb_spec (zlen d) 4); [apply good_err|].
   destruct (negb (znth d 0 0 =? js_c st)); [apply good_err|].
   eapply good_bind; [apply good_idx; lia|]. intros near _.
@@ -385,105 +337,77 @@ Proof.
   destruct ((js_c st =? 1) && negb (ilv =? 0)); [apply good_err|].
   destruct ((1 <? js_c st) && negb (ilv =? 2)); [apply good_err|].
   eapply good_bind.
-  { apply jlsn_apply_good. unfold InvN; simpl. repeat split; auto; lia. }
-  intros st2 (J & A2 & A3 & A4). apply good_ret. unfold postN; cbn [fst snd]. auto.
+  { apply jlsn_apply_good. unfold Inv; cbn [js_w js_h js_c js_maxval]. repeat split; auto; lia. }
+  intros st2 (J & (A2 & A3 & A4) & A5). cbn [js_w js_h js_c js_bits] in *.
+  destruct J as (J1 & J2 & J3 & J4).
+  apply good_ret. unfold postR, sameFrame, Inv; cbn [fst snd]. repeat split; auto; lia.
 Qed.
 
-Lemma jls_scan_allocs_goodN : forall g g' st rest, InvN g' st ->
-  good g (8 * (js_w st * js_h st * js_c st) + 2 * zlen rest + 65536) (fun _ => True) (jls_scan_allocs st rest).
+Lemma jlsn_loop_good : forall fuel st bs Sx, bytes bs -> Inv st -> (length bs < fuel)%nat -> 0 <= Sx ->
+  (frameless st = true -> frame_S 247 fuel bs <= Sx) -> (frameless st = false -> frameS st <= Sx) ->
+  aloopP Sx 8 bs (jlsn_loop fuel st bs).
 Proof.
-  intros g g' st rest (I1 & I2 & I3 & I4). unfold jls_scan_allocs.
-  pose proof (zlen_nonneg rest).
-  assert (Hwh : 0 <= js_w st * js_h st <= 65535 * 65535)
-    by (split; [apply Z.mul_nonneg_nonneg; lia | apply Z.mul_le_mono_nonneg; lia]).
-  assert (0 <= js_w st * js_h st * js_c st <= 65535 * 65535 * 3)
-    by (split; [apply Z.mul_nonneg_nonneg; lia | apply Z.mul_le_mono_nonneg; lia]).
-  eapply good_bind; [apply good_note with (post := fun _ => True); [lia|exact I]|]. intros _ _.
-  eapply good_bind; [apply good_alloc with (post := fun _ => True); [lia|rewrite maxAlloc_val; lia|lia|exact I]|]. intros _ _.
-  destruct (js_bits st <=? 8); (apply good_alloc; [lia|rewrite maxAlloc_val; lia|lia|exact I]).
-Qed.
-
-Lemma jlsn_loop_good : forall g fuel st bs, bytes bs -> InvN g st -> (length bs < fuel)%nat ->
-  loopP g bs (jlsn_loop g fuel st bs).
-Proof.
-  intros g fuel. induction fuel as [|k IH]; intros st bs Hb HI Hf; [lia|].
-  cbn [jlsn_loop].
-  destruct (read_marker bs) as [[m r]| | |] eqn:EM; try apply loopP_err.
+  induction fuel as [|k IH]; intros st bs Sx Hb HI Hf HS H1 H2; [lia|].
+  assert (HfS : frameS st <= Sx).
+  { destruct (frameless st) eqn:E; [rewrite (frameless_S st E); exact HS|apply H2; reflexivity]. }
+  cbn [jlsn_loop]. cbn [frame_S] in H1.
+  destruct (read_marker bs) as [[m r]| | |] eqn:EM; try apply aloopP_err.
   destruct (read_marker_ok _ _ _ EM) as [Hl Hbb]. destruct (Hbb Hb) as [Hr Hm].
   assert (Hzl : zlen r <= zlen bs) by (unfold zlen; lia).
-  assert (Rec : forall x : jls_st * list Z, postN g r x -> loopP g bs (jlsn_loop g k (fst x) (snd x))).
-  { intros [st' rest] (P1 & P2 & P3). cbn [fst snd] in *.
-    apply loopP_mono with (bs' := rest); [unfold zlen; lia|]. apply IH; auto. lia. }
-  destruct (m =? 247).
-  { eapply loopP_bind; [apply jlsn_sof55_good; exact Hr|exact Rec]. }
-  destruct (m =? 248).
-  { eapply loopP_bind; [apply jlsn_lse_good; auto|exact Rec]. }
-  destruct (m =? 218).
-  { eapply loopP_bind; [apply jlsn_sos_good; auto|].
-    intros [st' rest] (P1 & P2 & P3). cbn [fst snd] in *.
-    pose proof (jls_scan_allocs_goodN g g st' rest P1) as (S1 & S2 & S3 & _).
-    pose proof (jls_scan_allocs_goodN true g st' rest P1) as (T1 & _).
-    destruct P1 as (Q1 & Q2 & Q3 & Q4).
-    destruct (jls_scan_allocs st' rest) as [[[]| | |] la] eqn:ES; cbn [fst snd] in S1, S2, S3, T1;
-      unfold bind, ret; cbn [fst snd]; unfold loopP; cbn [fst snd].
-    - split; [congruence|]. split; [congruence|]. unfold bounded, Sres, S_hdr; cbn [fst snd]. rewrite app_nil_r.
-      eapply Forall_impl; [|exact S3]. cbv beta. intros a Ha.
-      assert (zlen rest <= zlen bs) by (unfold zlen; lia). lia.
-    - exfalso.
-      unfold jls_scan_allocs, note_alloc, alloc, bind in ES. cbn [fst snd] in ES.
-      destruct ((js_w st' * js_h st' * js_c st' <? 0) || (maxAlloc <? js_w st' * js_h st' * js_c st' * 8)); cbn [fst snd] in ES; try discriminate.
-      destruct ((js_w st' * js_h st' * js_c st' <? 0) || (maxAlloc <? js_w st' * js_h st' * js_c st' * (if js_bits st' <=? 8 then 1 else 2))); cbn [fst snd] in ES; discriminate.
-    - exfalso. apply T1; reflexivity.
-    - exfalso. apply S2; reflexivity. }
-  destruct (m =? 217); [apply loopP_err|].
-  destruct (has_length m).
-  { eapply loopP_bind; [apply good_weaken with (B := 65533) (p := fun x => bytes (fst x) /\ bytes (snd x) /\ zlen (fst x) <= 65533 /\ (length (snd x) <= length r)%nat) (p' := fun x => bytes (snd x) /\ (length (snd x) <= length r)%nat);
-      [apply good_read_segment; exact Hr|lia|tauto]|].
-    intros [d rest] (P2 & P3). cbn [fst snd] in *.
-    apply loopP_mono with (bs' := rest); [unfold zlen; lia|]. apply IH; auto. lia. }
-  apply loopP_mono with (bs' := r); [exact Hzl|]. apply IH; auto. lia.
+  pose proof (zlen_nonneg bs) as Hz0.
+  destruct (m =? 247) eqn:E247.
+  { eapply aloopP_bind; [apply jlsn_sof55_good; exact Hr|nia|].
+    intros [st' rest] ((P1 & P2 & P3 & P4) & F0 & F1 & F2). cbn [fst snd] in *.
+    eapply aloopP_mono with (S' := Sx) (bs' := rest); [lia|lia|unfold zlen; lia|].
+    apply IH; auto; [lia| |].
+    - intros C. rewrite F1 in C. discriminate.
+    - intros _. rewrite F2. apply H1. exact F0. }
+  destruct (m =? 248) eqn:E248.
+  { eapply aloopP_bind; [apply jlsn_lse_good; auto|nia|].
+    intros [st' rest] ((P1 & P2 & P3 & P4) & (A2 & A3 & A4)). cbn [fst snd] in *.
+    assert (Hfl : frameless st' = frameless st) by (unfold frameless; rewrite A2, A3; reflexivity).
+    eapply aloopP_mono with (S' := Sx) (bs' := rest); [lia|lia|unfold zlen; lia|].
+    apply IH; auto; [lia| |].
+    - rewrite Hfl. intros C. specialize (H1 C). rewrite P4.
+      apply Z.eqb_eq in E248. subst m. cbn in H1. exact H1.
+    - rewrite Hfl. intros C. unfold frameS. rewrite A2, A3, A4. apply H2; exact C. }
+  destruct (m =? 218) eqn:E218.
+  { eapply aloopP_bind; [apply jlsn_sos_good; auto|nia|].
+    intros [st' rest] ((P1 & P2 & P3 & P4) & (A2 & A3 & A4) & A5). cbn [fst snd] in *.
+    destruct HI as (I1 & I2 & I3 & I4).
+    pose proof (jls_scan_allocs_good st' rest ltac:(lia) ltac:(lia) ltac:(lia)) as G.
+    eapply aloopP_bind; [exact G| |intros _ _; apply aloopP_ret].
+    unfold frameS in HfS. rewrite A2, A3, A4. assert (zlen rest <= zlen bs) by (unfold zlen; lia). lia. }
+  destruct (m =? 217) eqn:E217; [apply aloopP_err|].
+  cbn [orb] in H1.
+  destruct (has_length m) eqn:EL.
+  { eapply aloopP_bind; [eapply good_weaken; [apply good_read_segment'; exact Hr|apply Z.le_refl|intros a Ha; exact Ha]|nia|].
+    intros [d rest] (P1 & P2 & P3 & P4 & P5 & P6). cbn [fst snd] in *.
+    eapply aloopP_mono with (S' := Sx) (bs' := rest); [lia|lia|unfold zlen; lia|].
+    apply IH; auto; [lia|]. intros C. rewrite P6. apply H1. exact C. }
+  eapply aloopP_mono with (S' := Sx) (bs' := r); [lia|lia|exact Hzl|].
+  apply IH; auto. lia.
 Qed.
 
-Lemma jlsn_decode_loopP : forall g bs, bytes bs -> loopP g bs (jlsn_decode g (fuel_of bs) bs).
+Lemma jlsn_decode_aloopP : forall bs, bytes bs -> aloopP (frame_declared 247 bs) 8 bs (jlsn_decode (fuel_of bs) bs).
 Proof.
-  intros g bs Hb. unfold jlsn_decode.
-  destruct (read_marker bs) as [[m r]| | |] eqn:EM; try apply loopP_err.
+  intros bs Hb. unfold jlsn_decode, frame_declared.
+  destruct (read_marker bs) as [[m r]| | |] eqn:EM; try apply aloopP_err.
   destruct (read_marker_ok _ _ _ EM) as [Hl Hbb]. destruct (Hbb Hb) as [Hr Hm].
-  destruct (m =? 216); [|apply loopP_err].
-  apply loopP_mono with (bs' := r); [unfold zlen; lia|].
-  apply jlsn_loop_good; auto; [apply InvN0|unfold fuel_of; lia].
+  destruct (m =? 216); [|apply aloopP_err].
+  eapply aloopP_mono with (S' := frame_S 247 (fuel_of bs) r) (bs' := r); [lia|lia|unfold zlen; lia|].
+  apply jlsn_loop_good; auto.
+  - apply Inv0.
+  - unfold fuel_of; lia.
+  - apply frame_S_nonneg; auto.
+  - intros _. lia.
+  - intros C. discriminate.
 Qed.
 
-Theorem jlsn_decode_no_panic : forall bs, bytes bs -> fst (jlsn_decode true (fuel_of bs) bs) <> Panic.
-Proof. intros bs Hb. apply (jlsn_decode_loopP true bs Hb). reflexivity. Qed.
-
-Definition jlsn_panic_witness : list Z :=
-  [255; 216; 255; 247; 0; 8; 64; 0; 1; 0; 1; 1; 255; 218; 0; 8; 1; 1; 0; 0; 0; 0].
-Theorem jlsn_decode_panics_refuted : exists bs, bytes bs /\ fst (jlsn_decode false (fuel_of bs) bs) = Panic.
-Proof.
-  exists jlsn_panic_witness. split; [|vm_compute; reflexivity].
-  unfold bytes, jlsn_panic_witness. repeat constructor; lia.
-Qed.
-
-Theorem jlsn_decode_fuel : forall g bs, bytes bs -> fst (jlsn_decode g (fuel_of bs) bs) <> OutOfFuel.
-Proof. intros g bs Hb. apply (jlsn_decode_loopP g bs Hb). Qed.
-
-Theorem jlsn_decode_alloc : forall g bs, bytes bs ->
-  Forall (fun a => a <= 8 * Sres S_hdr (fst (jlsn_decode g (fuel_of bs) bs)) + 2 * zlen bs + 65536)
-         (snd (jlsn_decode g (fuel_of bs) bs)).
-Proof.
-  intros g bs Hb. destruct (jlsn_decode_loopP g bs Hb) as (_ & _ & H).
-  unfold bounded in H. eapply Forall_impl; [|exact H]. cbv beta; intros; lia.
-Qed.
-
-(* the proposed check changes nothing but turning results into errors *)
-Theorem jls_sof55_check_conservative : forall st bs,
-  jlsl_parse_sof55 true st bs = jlsl_parse_sof55 false st bs \/ fst (jlsl_parse_sof55 true st bs) = Err.
-Proof.
-  intros st bs. unfold jlsl_parse_sof55.
-  destruct (read_segment bs) as [[[d rest]| | |] l]; unfold bind; cbn [fst snd]; auto.
-  destruct (zlen d <? 6); auto.
-  destruct ((be16 d 3 <=? 0) || (be16 d 1 <=? 0)); auto.
-  destruct (negb ((znth d 5 0 =? 1) || (znth d 5 0 =? 3))); auto.
-  destruct (64 <=? znth d 0 0); cbn [andb]; auto.
-Qed.
+Theorem jlsn_decode_no_panic : forall bs, bytes bs -> fst (jlsn_decode (fuel_of bs) bs) <> Panic.
+Proof. intros bs Hb. apply (jlsn_decode_aloopP bs Hb). Qed.
+Theorem jlsn_decode_fuel : forall bs, bytes bs -> fst (jlsn_decode (fuel_of bs) bs) <> OutOfFuel.
+Proof. intros bs Hb. apply (jlsn_decode_aloopP bs Hb). Qed.
+Theorem jlsn_decode_alloc : forall bs, bytes bs ->
+  Forall (fun a => a <= 8 * frame_declared 247 bs + 2 * zlen bs + 65536) (snd (jlsn_decode (fuel_of bs) bs)).
+Proof. intros bs Hb. apply (jlsn_decode_aloopP bs Hb). Qed.
